@@ -47,9 +47,10 @@ impl Serialize for Term {
             Term::Some(x) => s.serialize_some(x.as_ref()),
             Term::Unit => s.serialize_unit(),
             Term::UnitStruct(n) => s.serialize_unit_struct(NAMES[*n]),
-            Term::UnitVariant(v) => s.serialize_unit_variant("E", *v as u32, VARIANTS[*v]),
+            // the index is NOT a function of the name: two enums both called E may number their variants differently
+            Term::UnitVariant(v) => s.serialize_unit_variant("E", ((*v * 7 + 3) % 4) as u32 % 2, VARIANTS[*v]),
             Term::NewtypeStruct(n, x) => s.serialize_newtype_struct(NAMES[*n], x.as_ref()),
-            Term::NewtypeVariant(v, x) => s.serialize_newtype_variant("E", *v as u32, VARIANTS[*v], x.as_ref()),
+            Term::NewtypeVariant(v, x) => s.serialize_newtype_variant("E", (*v % 2) as u32, VARIANTS[*v], x.as_ref()),
             Term::Seq(es) => {
                 let mut q = s.serialize_seq(Some(es.len()))?;
                 for e in es {
@@ -72,7 +73,7 @@ impl Serialize for Term {
                 q.end()
             }
             Term::TupleVariant(v, es) => {
-                let mut q = s.serialize_tuple_variant("E", *v as u32, VARIANTS[*v], es.len())?;
+                let mut q = s.serialize_tuple_variant("E", (*v % 2) as u32, VARIANTS[*v], es.len())?;
                 for e in es {
                     q.serialize_field(e)?;
                 }
@@ -102,7 +103,7 @@ impl Serialize for Term {
                 q.end()
             }
             Term::StructVariant(v, fs) => {
-                let mut q = s.serialize_struct_variant("E", *v as u32, VARIANTS[*v], fs.len())?;
+                let mut q = s.serialize_struct_variant("E", (*v % 2) as u32, VARIANTS[*v], fs.len())?;
                 for (f, x) in fs {
                     q.serialize_field(FIELDS[*f], x)?;
                 }
@@ -306,8 +307,17 @@ pub fn drive_c17(seed: u64, thorough: bool, out: &mut dyn Write) -> usize {
             writeln!(out, "{}", json!({"id": id, "op": "wrap", "wrap": wrap, "a": enc::value(&expect), "out": o})).unwrap();
         }
     }
-    for t in ["0001-01-01T00:00:00Z", "9999-12-31T23:59:59.999999999Z", "1970-01-01T00:00:00+14:00", "2024-02-29T12:30:45.123456789-05:30", "1969-12-31T23:59:59.5Z"] {
-        let ts = chrono::DateTime::parse_from_rfc3339(t).unwrap();
+    let mut tss: Vec<chrono::DateTime<chrono::FixedOffset>> = ["0001-01-01T00:00:00Z", "9999-12-31T23:59:59.999999999Z", "1970-01-01T00:00:00+14:00", "2024-02-29T12:30:45.123456789-05:30",
+                "1969-12-31T23:59:59.5Z", "0000-06-15T12:00:00-08:00", "0001-01-01T00:00:00+14:00", "9999-12-31T23:59:59-12:00"]
+        .iter().map(|t| chrono::DateTime::parse_from_rfc3339(t).unwrap()).collect();
+    // years before 0000 and after 9999 (written in chrono's extended form), viewed at non-zero offsets
+    for (secs, off) in [(-62_198_755_200i64 - 86_400 * 400, -8 * 3600), (-62_198_755_200i64 - 86_400 * 366 * 20, 5 * 3600 + 1800), (253_402_300_800i64 + 86_400 * 30, 3600), (253_402_300_800i64 + 86_400 * 366 * 1000, -43200),
+                        (253_402_300_800i64 + 12_345, 14 * 3600), (-62_198_755_200i64 - 1, -1)] {
+        if let (Some(utc), Some(fo)) = (chrono::DateTime::<chrono::Utc>::from_timestamp(secs, 500_000_000), chrono::FixedOffset::east_opt(off)) {
+            tss.push(utc.with_timezone(&fo));
+        }
+    }
+    for ts in tss {
         let expect = Value::Timestamp(ts);
         for wrap in 0..2 {
             let r = catch_unwind(AssertUnwindSafe(|| match wrap {
